@@ -30,8 +30,10 @@ REAL = ["debian._deb822_repro.parsing (ListInterpretation, Deb822ParsedTokenList
         "comma_split_tokenizer), _util.py (len_check_iterator, BufferingIterator)"]
 STUB = []
 ASSUMPTIONS = [
-    "two views on the same field are never open at the same time (the property does not "
-    "define who wins); removing the last remaining value is excluded (an empty field is not "
+    "when two clients hold a view of the same field, each commit of a CHANGED view writes that "
+    "view's list (the last changed commit wins) and an untouched commit writes nothing - the "
+    "statement's 'the field re-parses to exactly the edited list' applied to the committing "
+    "view; removing the last remaining value is excluded (an empty field is not "
     "representable)",
     "values are non-empty, contain no newline, no comma (comma lists) and no blank "
     "(white-space lists); anything else must be refused with ValueError and change nothing",
@@ -45,7 +47,8 @@ PROBES = ["remove_first_value", "remove_last_value", "remove_middle_value",
           "first_value_starts_with_hash", "commit_on_unterminated_last_field", "gc_step",
           "long_lived_dict_view", "reference_iterator_opened",
           "streaming_removal_through_iterator", "later_value_removed_while_iterator_suspended",
-          "field_added_while_view_open", "field_moved_while_view_open"]
+          "field_added_while_view_open", "field_moved_while_view_open",
+          "two_views_of_the_same_field"]
 
 WSV = ["amd64", "i386", "any", "linux-any", "x", "a1", "#h", "!hurd", "[x]", "ü"]
 CMV = ["libc6", "foo (>= 1.0)", "x y", "bb", "a | b", "#h", "${misc:Depends}", "q"]
@@ -157,10 +160,15 @@ def generate(seed, run, tier):
     steps = []
     listnames = LISTNAMES[:nlist]
     nadd = 0
+    # two clients may hold a view of the SAME field; each commit of a changed view writes
+    # that view's list (the last changed commit wins, an untouched commit writes nothing)
+    same_field = rs.random() < 0.25
     for _ in range(rs.choice([3, 6, 12, 30])):
         k = rq.choice(kindsl)
         f = rq.choice(listnames)
         st = {"op": k, "field": f}
+        if same_field and rq.random() < 0.35:
+            st["vi"] = 1          # the second client's view of the same field
         if k == "it_next":
             st["act"] = rq.choice(["none", "none", "set", "remove"])
             st["val"] = rq.choice(WSV if kinds[f] == "ws" else CMV)
@@ -189,6 +197,8 @@ def generate(seed, run, tier):
     # close everything at the end so that every change gets judged
     for f in listnames:
         steps.append({"op": "commit", "field": f})
+        if same_field:
+            steps.append({"op": "commit", "field": f, "vi": 1})
     return {"world": {"doc": doc.to_json(), "kinds": kinds,
                       # one long-lived dict view per interpretation, or a new one per lookup
                       "reuse_dict_view": rs.random() < 0.4}, "trace": steps}
@@ -345,18 +355,21 @@ def execute(case):
             kind = kinds[name]
             pi, j = _find(doc, name)
             seg = doc.paras[pi][j]
+            vkey = name if not st.get("vi") else name + "#2"
             if op == "open":
-                if name in views:
+                if vkey in views:
                     continue
+                if any(k.split("#")[0] == name for k in views):
+                    out.probe("two_views_of_the_same_field")
                 want = read_check(name, si, "open")
                 lv = dict_view(kind)[name]
                 lv.__enter__()
                 slots = list(range(len(want)))
                 refs = dict(zip(slots, lv.iter_value_references()))
-                views[name] = {"v": lv, "m": list(want), "slots": slots, "refs": refs,
+                views[vkey] = {"v": lv, "m": list(want), "slots": slots, "refs": refs,
                                "changed": False, "next": len(want), "it": None, "itpos": 0,
                                "itcur": None, "itlive": True}
-                open_order.append(name)
+                open_order.append(vkey)
                 lines = seg.after_colon.splitlines(True)
                 if any(l.startswith("\t") for l in lines[1:]):
                     out.probe("tab_continuation")
@@ -369,9 +382,9 @@ def execute(case):
                 inter.append((name, "open"))
                 out.steps += 1
                 continue
-            if name not in views:
+            if vkey not in views:
                 continue
-            V = views[name]
+            V = views[vkey]
             lv, m = V["v"], V["m"]
             before_doc = f.dump()
             where = {"step": si, "field": name, "kind": kind, "op": op,
@@ -386,11 +399,11 @@ def execute(case):
                     exc = None
                 except Exception as e:   # pylint: disable=broad-except
                     exc = repr(e)
-                del views[name]
-                idx = open_order.index(name)
+                del views[vkey]
+                idx = open_order.index(vkey)
                 if op == "commit" and changed and idx < len(open_order) - 1:
                     out.probe("two_views_committed_in_reverse_open_order")
-                open_order.remove(name)
+                open_order.remove(vkey)
                 log.add(si, op, name, changed, exc)
                 inter.append((name, op))
                 out.steps += 1
